@@ -3425,8 +3425,12 @@ class DenseIntOrFPElementsAttr(
         Return whether or not this dense attribute is defined entirely
         by a single value (splat).
         """
-        values = self.get_values()
-        return values.count(values[0]) == len(values)
+        # Compare the stored bytes: float comparison would merge 0.0 and -0.0
+        # and never consider a NaN equal to itself
+        data = self.data.data
+        size = len(data) // len(self)
+        first = data[:size]
+        return all(data[i : i + size] == first for i in range(size, len(data), size))
 
     @staticmethod
     def parse_with_type(parser: AttrParser, type: Attribute) -> TypedAttribute:
